@@ -11,7 +11,7 @@ import (
 // Alphabets per data type (edit kinds of the public API, see hist/ops.go).
 var (
 	objOps = []string{"o.set1", "o.set2", "o.setstr1", "o.del1", "o.setobj1", "o.setin1", "o.setarr1", "o.pushin1", "o.delroot", "o.newroot"}
-	arrOps = []string{"a.push", "a.ins0", "a.insL", "a.del0", "a.delL", "a.delM", "a.mv0L", "a.mvL0", "a.mvFrontL", "a.mvLast0", "a.set0", "a.setL", "a.pushobj", "a.setinL", "a.delroot", "a.newroot"}
+	arrOps = []string{"a.push", "a.ins0", "a.insL", "a.del0", "a.delL", "a.delM", "a.mv0L", "a.mvL0", "a.mvFrontL", "a.mvLast0", "a.mvBef0L", "a.mvBefL0", "a.set0", "a.setL", "a.pushobj", "a.setinL", "a.delroot", "a.newroot"}
 	txtOps = []string{"t.ins0", "t.insM", "t.insE", "t.ins2M", "t.delF", "t.delM", "t.delB", "t.del1M", "t.delAll", "t.repM", "t.repAll", "t.styF", "t.styB", "t.styAll2", "t.insAttrM", "t.delroot"}
 	cntOps = []string{"c.inc1", "c.incv", "c.dec", "c.incmax", "c.inclong", "c.incf", "cl.inc1", "cl.incmax", "c.reset", "c.delroot"}
 )
@@ -36,7 +36,7 @@ func families() []family {
 // thorough tier uses the full alphabets above).
 var (
 	objCore  = []string{"o.set1", "o.del1", "o.setobj1", "o.setin1", "o.setarr1", "o.pushin1", "o.delroot"}
-	arrCore  = []string{"a.push", "a.ins0", "a.delL", "a.del0", "a.mv0L", "a.mvFrontL", "a.mvLast0", "a.setL", "a.pushobj", "a.delroot"}
+	arrCore  = []string{"a.push", "a.ins0", "a.delL", "a.del0", "a.mv0L", "a.mvFrontL", "a.mvLast0", "a.mvBefL0", "a.setL", "a.pushobj", "a.delroot"}
 	txtCore  = []string{"t.ins0", "t.insM", "t.insE", "t.delF", "t.delM", "t.repM", "t.styF", "t.styB", "t.insAttrM"}
 	cntCore  = []string{"c.inc1", "c.incmax", "c.inclong", "cl.incmax", "c.reset", "c.delroot"}
 	treeCore = []string{"tr.insT0", "tr.insT1", "tr.delT0", "tr.insP0", "tr.insPE", "tr.delP0", "tr.repP0", "tr.sty0", "tr.rmsty0"}
